@@ -282,6 +282,8 @@ pub fn run(case: &Value) -> Vec<Value> {
             }
             "forced_cancel" => forced_cancel(),
             "forced_stop" => forced_stop(),
+            "race_submit" => race_submit(usize::try_from(as_u64(&op["threads"])).expect("threads"),
+                                         usize::try_from(as_u64(&op["per"])).expect("per")),
             "running" => json!({"num": pools[p.expect("p")].get_running_size()}),
             "size" => json!({"num": pools[p.expect("p")].size()}),
             "state" => json!({"state": match pools[p.expect("p")].state() {
@@ -473,4 +475,60 @@ fn forced_stop() -> Value {
     let late = back_at.saturating_duration_since(stopped_at);
     json!({"forced_stop": {"taken": taken, "registered": registered, "first": first, "second": second, "state": state,
            "wait": r, "late_ms": u64::try_from(late.as_millis()).unwrap_or(u64::MAX)}})
+}
+
+/// C01, "from any number of threads": several plain threads submit to ONE pool at the same time
+/// (the way user threads submit to an event loop), nobody schedules meanwhile; then this thread
+/// runs passes until the queue is empty. Every task counts its own executions.
+fn race_submit(threads: usize, per: usize) -> Value {
+    use std::sync::atomic::{AtomicU32, Ordering};
+    use std::sync::{Arc, Barrier};
+    verif::set_virtual_clock(None);
+    let pool: &'static mut CoroutinePool<'static> =
+        Box::leak(Box::new(CoroutinePool::new("ocvrace".to_string(), 128 * 1024, 0, 4, 0)));
+    let n = threads * per;
+    let runs: Arc<Vec<AtomicU32>> = Arc::new((0..n).map(|_| AtomicU32::new(0)).collect());
+    let pool_addr = std::ptr::from_ref::<CoroutinePool<'static>>(&*pool) as usize;
+    let barrier = Arc::new(Barrier::new(threads));
+    let mut hs = Vec::new();
+    for t in 0..threads {
+        let runs = runs.clone();
+        let barrier = barrier.clone();
+        hs.push(std::thread::spawn(move || {
+            let pool = unsafe { &*(pool_addr as *const CoroutinePool<'static>) };
+            let _ = barrier.wait();
+            let mut accepted = 0usize;
+            for k in 0..per {
+                let ix = t * per + k;
+                let runs = runs.clone();
+                if pool
+                    .submit_task(Some(format!("race{ix}")), move |_| {
+                        let _ = runs[ix].fetch_add(1, Ordering::SeqCst);
+                        Some(ix)
+                    }, None, None)
+                    .is_ok()
+                {
+                    accepted += 1;
+                }
+            }
+            accepted
+        }));
+    }
+    let accepted: usize = hs.into_iter().map(|h| h.join().unwrap_or(0)).sum();
+    let t0 = std::time::Instant::now();
+    let mut idle = 0;
+    while t0.elapsed() < Duration::from_secs(5) && idle < 3 {
+        let _ = pool.try_timed_schedule_task(Duration::from_millis(5));
+        if pool.size() == 0 {
+            idle += 1;
+        } else {
+            idle = 0;
+        }
+    }
+    let _ = take_log();
+    let once = runs.iter().filter(|c| c.load(Ordering::SeqCst) == 1).count();
+    let lost = runs.iter().filter(|c| c.load(Ordering::SeqCst) == 0).count();
+    let dup = runs.iter().filter(|c| c.load(Ordering::SeqCst) > 1).count();
+    json!({"race_submit": {"submitted": n, "accepted": accepted, "once": once, "lost": lost, "dup": dup,
+                           "left": pool.size()}})
 }
